@@ -104,17 +104,28 @@ Proof.
   unfold k7. repeat apply ok_lex; apply ok_on; first [apply ok_Z | apply ok_string].
 Qed.
 
-Lemma ok_odcmp : ok odcmp.
+Lemma lcmp_refl l : lcmp l l = Eq.
+Proof. induction l as [|x l IH]; cbn; auto. now rewrite (ok_refl _ ok_dcmp). Qed.
+
+Lemma ok_lcmp : ok lcmp.
 Proof.
   pose proof ok_dcmp as H. split.
-  - intros [a|]; cbn; auto. apply (ok_refl _ H).
-  - intros [a|] [b|]; cbn; auto. apply (ok_anti _ H).
-  - intros [a|] [b|] [d|]; cbn; try discriminate; auto. apply (ok_trans _ H).
-  - intros [a|] [b|] [d|]; cbn; try discriminate; auto. apply (ok_eq _ H).
+  - apply lcmp_refl.
+  - induction a as [|x a IH]; intros [|y b]; cbn; auto.
+    rewrite (ok_anti _ H x y). destruct (dcmp x y); cbn; auto.
+  - induction a as [|x a IH]; intros [|y b] [|z d]; cbn; try discriminate; auto.
+    destruct (dcmp x y) eqn:E1; try discriminate; destruct (dcmp y z) eqn:E2; try discriminate; intros L1 L2.
+    + rewrite (ok_eq _ H x y z E1), E2. eauto.
+    + now rewrite (ok_eq _ H x y z E1), E2.
+    + now rewrite <- (ok_eq_r _ H y z x E2), E1.
+    + now rewrite (ok_trans _ H x y z E1 E2).
+  - induction a as [|x a IH]; intros [|y b] [|z d]; cbn; try discriminate; auto.
+    all: destruct (dcmp x y) eqn:E1; try discriminate; intros E2; try reflexivity.
+    rewrite (ok_eq _ H x y z E1). destruct (dcmp y z); auto.
 Qed.
 
 Lemma ok_kcmp : ok kcmp.
-Proof. unfold kcmp. apply ok_lex; [apply ok_k7|apply ok_on, ok_odcmp]. Qed.
+Proof. unfold kcmp. apply ok_lex; [apply ok_k7|apply ok_on, ok_lcmp]. Qed.
 
 (** The Go comparator answers "less" exactly when the key order does, or when the keys tie and the left
     report has no diagnostics (the cmpDiagnostics quirk). *)
@@ -122,11 +133,11 @@ Lemma report_lt_spec a b :
   report_lt a b = true <-> kcmp a b = Lt \/ (kcmp a b = Eq /\ fsort (r_diags a) = []).
 Proof.
   unfold report_lt, kcmp, lex, on. destruct (k7 a b); cbn.
-  - destruct (fsort (r_diags a)) as [|x xs], (fsort (r_diags b)) as [|y ys]; cbn; unfold diag_lt.
-    + split; auto.
-    + split; auto.
-    + split; [discriminate|]. intros [H|[H _]]; discriminate.
-    + destruct (dcmp x y); split; auto; try discriminate; intros [H|[_ H]]; discriminate.
+  - destruct (fsort (r_diags a)) as [|x xs], (fsort (r_diags b)) as [|y ys]; cbn [cmp_diagnostics_neg].
+    + cbn. split; auto.
+    + cbn. split; auto.
+    + cbn. split; [discriminate|]. intros [H|[H _]]; discriminate.
+    + destruct (lcmp (x :: xs) (y :: ys)); split; auto; try discriminate; intros [H|[_ H]]; discriminate.
   - split; auto.
   - split; [discriminate|]. intros [H|[H _]]; discriminate.
 Qed.
@@ -143,6 +154,15 @@ Proof.
   - intros (-> & -> & -> & ->). now rewrite !Z.compare_refl, string_compare_refl, N.compare_refl.
 Qed.
 
+Lemma lcmp_eq sa sb : lcmp sa sb = Eq <-> map dkey sa = map dkey sb.
+Proof.
+  revert sb. induction sa as [|x sa IH]; intros [|y sb]; cbn; split; try discriminate; auto.
+  - destruct (dcmp x y) eqn:E; try discriminate. intros L. apply dcmp_eq in E. destruct E as (E1 & E2 & E3 & E4).
+    unfold dkey at 1 3. rewrite E1, E2, E3, E4. f_equal. now apply IH.
+  - intros E. injection E as E1 E2 E3 E4 E5.
+    assert (D : dcmp x y = Eq) by (apply dcmp_eq; auto). rewrite D. now apply IH.
+Qed.
+
 Lemma kcmp_eq_sort_key a b : kcmp a b = Eq <-> sort_key a = sort_key b.
 Proof.
   unfold kcmp, k7, lex, on, sort_key. split.
@@ -154,11 +174,7 @@ Proof.
     destruct (r_summary a ?= r_summary b)%string eqn:E6; try discriminate.
     destruct (r_details a ?= r_details b)%string eqn:E7; try discriminate.
     apply String.compare_eq_iff in E1, E5, E6, E7. apply Z.compare_eq in E2, E3, E4.
-    rewrite E1, E2, E3, E4, E5, E6, E7.
-    destruct (fsort (r_diags a)) as [|x xs], (fsort (r_diags b)) as [|y ys]; cbn; try discriminate; auto.
-    intros E. apply dcmp_eq in E. destruct E as (-> & -> & -> & ->). reflexivity.
+    rewrite E1, E2, E3, E4, E5, E6, E7. intros E. apply lcmp_eq in E. now rewrite E.
   - intros E. injection E as -> -> -> -> -> -> -> E8.
-    rewrite !string_compare_refl, !Z.compare_refl.
-    destruct (fsort (r_diags a)) as [|x xs], (fsort (r_diags b)) as [|y ys]; cbn; try discriminate; auto.
-    injection E8 as E1 E2 E3 E4. apply dcmp_eq. auto.
+    rewrite !string_compare_refl, !Z.compare_refl. now apply lcmp_eq.
 Qed.
